@@ -4,6 +4,7 @@ from fractions import Fraction
 import fw
 from fw import Corr, Failure, cz, cq, cbool, clist
 from oracles import sorted_queue as oracle
+from oracles import c09_users_ref as users
 
 TITLE = 'Time-ordered collections are stable priority queues under any history'
 TRANSLATED = []
@@ -261,6 +262,210 @@ def indirect(ctx, c):
                    % (len(ax), len(sx)))
 
 
+# ---- indirect users II: clock tasks, score from inside routines, Ppar (oracle = reference queue) ----
+TEMPI = ['1', '2', '1/2', '4', '1']
+DELTAS = ['0', '1/2', '1', '1', '1', '2', '3/2']
+
+
+def gen_clock(rng, abort=False):
+    ncl = rng.choice([1, 1, 2])
+    clocks = [rng.choice(TEMPI) for _ in range(ncl)]
+    nt = rng.randint(2, 6)
+    home = rng.choice([-1] + list(range(ncl)) * 2)           # most tasks share one clock: ties
+    tasks = []
+
+    def acts(k):
+        out = []
+        for _ in range(k):
+            r = rng.random()
+            if r < 0.45: out.append(['sched', rng.randrange(nt), rng.choice(DELTAS)])
+            elif r < 0.70: out.append(['abs', rng.randrange(nt), str(rng.randint(1, 3))])
+            elif r < 0.93: out.append(['tempo', rng.randrange(ncl), rng.choice(TEMPI)])
+            else: out.append(['beats', rng.randrange(ncl), rng.choice(['0', '1/2', '1'])])
+        return out
+    for j in range(nt):
+        steps = [{'acts': acts(rng.choice([0, 0, 0, 1, 1, 2])), 'ret': rng.choice([None, None] + DELTAS)}
+                 for _ in range(rng.randint(1, 3))]
+        tasks.append({'clock': home if rng.random() < 0.75 else rng.choice([-1] + list(range(ncl))),
+                      'type': rng.choice('RRF'), 'steps': steps})
+    init = []
+    for j in rng.sample(range(nt), nt):                      # everybody due at few distinct beats
+        init.append([rng.choice(['sched', 'abs']), j, str(rng.choice([1, 1, 2, 2, 3]))])
+    for _ in range(rng.randint(0, nt)):                      # re-schedule some while pending
+        init.append([rng.choice(['sched', 'abs']), rng.randrange(nt), str(rng.choice([1, 2, 2, 3]))])
+    if rng.random() < 0.6:                                   # tempo / beats change while pending
+        init.append(['tempo', rng.randrange(ncl), rng.choice(TEMPI)] if rng.random() < 0.8
+                    else ['beats', rng.randrange(ncl), rng.choice(['1/2', '1'])])
+    return {'kind': 'clock', 'clocks': clocks, 'tasks': tasks, 'init': init, 'abort': abort}
+
+
+LATS = [None, '-1/2', '-1', '0', '0', '1/4', '1/2', '1/2', '1', '3/2']
+
+
+def gen_score(rng):
+    nt = rng.randint(1, 4)
+    ident = iter(range(1, 1000))
+    tasks = []
+    for _ in range(nt):
+        tasks.append({'steps': [{'acts': [['bundle', rng.choice(LATS), next(ident)] for _ in range(rng.randint(0, 3))],
+                                 'ret': rng.choice([None, '1/2', '1/2', '1', '1', '3/2'])}
+                                for _ in range(rng.randint(1, 4))]})
+    init = []
+    for j in rng.sample(range(nt), nt):
+        init.append(['play', j, rng.choice(['0', '1/2', '1', '1', '2'])])
+    for _ in range(rng.randint(0, 2)):
+        init.insert(rng.randint(0, len(init)), ['bundle', rng.choice([None, '-1/2', '0', '1/2', '1', '2']), next(ident)])
+    return {'kind': 'score', 'tasks': tasks, 'init': init, 'tail': rng.choice(['0', '0', '1/2', '2'])}
+
+
+def gen_ppar(rng):
+    return {'kind': 'ppar', 'streams': [[rng.choice(['1/2', '1/2', '1', '1', '3/2', '1/4']) for _ in range(rng.randint(1, 5))]
+                                        for _ in range(rng.randint(1, 5))]}
+
+
+def fixed_user_scenarios():
+    """Hand-written scenarios (minimal histories that killed mutants in a scratch tree)."""
+    F = lambda c: {'clock': c, 'type': 'F', 'steps': [{'acts': [], 'ret': None}]}
+    return [
+        # a first (far), b, a again (moves behind b), c; tempo change while pending: b a c
+        {'kind': 'clock', 'clocks': ['1'], 'tasks': [F(0), F(0), F(0)], 'abort': False,
+         'init': [['abs', 0, '7'], ['abs', 1, '4'], ['abs', 0, '4'], ['abs', 2, '4'], ['tempo', 0, '2']]},
+        # the same with a beats change
+        {'kind': 'clock', 'clocks': ['2'], 'tasks': [F(0), F(0), F(0)], 'abort': False,
+         'init': [['abs', 0, '7'], ['abs', 1, '4'], ['abs', 0, '4'], ['abs', 2, '4'], ['beats', 0, '1']]},
+        # dirty scheduler (re-added and replaced entries), reset, then three tasks must all wake
+        {'kind': 'clock', 'clocks': ['1'], 'tasks': [F(0), F(0), F(-1)], 'abort': True,
+         'init': [['sched', 0, '1'], ['sched', 1, '1'], ['sched', 0, '2'], ['sched', 1, '2'], ['sched', 2, '1'], ['sched', 2, '1']]},
+        {'kind': 'clock', 'clocks': ['1'], 'tasks': [F(0), F(-1), F(0)], 'abort': False,
+         'init': [['sched', 0, '1'], ['sched', 1, '1'], ['sched', 2, '1']]},
+        # score: 1 (1.7->1.75) | 2 (sent at 1 for 2), then 3, 4 (negative latency = now), 5 (None) sent at 2
+        {'kind': 'score', 'tail': '0', 'init': [['play', 0, '0'], ['play', 1, '0']],
+         'tasks': [{'steps': [{'acts': [], 'ret': '1'}, {'acts': [['bundle', '3/4', 1], ['bundle', '1', 2]], 'ret': None}]},
+                   {'steps': [{'acts': [], 'ret': '2'},
+                              {'acts': [['bundle', '0', 3], ['bundle', '-1/2', 4], ['bundle', None, 5]], 'ret': None}]}]},
+        {'kind': 'ppar', 'streams': [['1', '1/2', '1/2'], ['1/2', '3/2'], ['1/2', '1/2', '1/2', '1/2']]},
+    ]
+
+
+def shrink_scenario(sc, fails):
+    """Greedy structural shrinking of a scenario; fails(list of scenarios) -> list of bool."""
+    import copy
+
+    def candidates(s):
+        out = []
+        if s['kind'] == 'ppar':
+            for i in range(len(s['streams'])):
+                if len(s['streams']) > 1:
+                    c = copy.deepcopy(s); del c['streams'][i]; out.append(c)
+                if len(s['streams'][i]) > 1:
+                    c = copy.deepcopy(s); c['streams'][i].pop(); out.append(c)
+            return out
+        for i in range(len(s['init'])):
+            c = copy.deepcopy(s); del c['init'][i]; out.append(c)
+        for j, t in enumerate(s['tasks']):
+            if len(t['steps']) > 1:
+                c = copy.deepcopy(s); c['tasks'][j]['steps'].pop(); out.append(c)
+            for k, st in enumerate(t['steps']):
+                for m in range(len(st['acts'])):
+                    c = copy.deepcopy(s); del c['tasks'][j]['steps'][k]['acts'][m]; out.append(c)
+                if st['ret'] is not None:
+                    c = copy.deepcopy(s); c['tasks'][j]['steps'][k]['ret'] = None; out.append(c)
+        return out
+    for _ in range(40):
+        cands = candidates(sc)
+        if not cands:
+            break
+        ok = [c for c, r in zip(cands, fails(cands)) if r]
+        if not ok:
+            break
+        sc = ok[0]
+    return sc
+
+
+def user_scenarios(ctx, n):
+    rng = ctx.rng
+    scs = fixed_user_scenarios()
+    p = os.path.join(fw.VERIF, 'corpus', 'C09_users.json')
+    if os.path.exists(p):
+        scs += [{k: v for k, v in x.items() if k != 'why'} for x in json.load(open(p))]
+    for _ in range(n):
+        r = rng.random()
+        if r < 0.55:
+            if rng.random() < 0.2:
+                scs.append(gen_clock(rng, abort=True))          # dirty state, then reset by the next one
+            scs.append(gen_clock(rng))
+        elif r < 0.85: scs.append(gen_score(rng))
+        else: scs.append(gen_ppar(rng))
+    return scs
+
+
+USER_THEOREM = {'order': 'pop_nondecreasing', 'fifo-on-ties': 'pop_fifo_on_ties', 'at-most-once': 'item_at_most_once',
+                're-add': 'readd_moves_to_new_time_as_latest', 'empty': 'empty_iff_no_live',
+                'iter': 'iter_is_sorted_contents', 'other': 'tq_refines_spec'}
+USERS_HOW = 'PYTHONPATH=$SC3_REPO:/verif/harness /venv/bin/python harness/impl/c09_users.py <in: {"scenarios": [..]}> <out>'
+
+
+def run_users(ctx, scs):
+    return ctx.impl('c09_users', {'scenarios': scs}, timeout=900)['out']
+
+
+def check_users(ctx, c, n, kind='correspondence'):
+    """Run scenarios on the real library, judge with the reference queue; return Failures (concrete inputs)."""
+    scs = user_scenarios(ctx, n)
+    try:
+        res = run_users(ctx, scs)
+    except fw.ImplError as e:
+        return [Failure('correspondence', 'indirect-user runner failed: %s' % str(e)[-600:], replay={'error': str(e)[-600:]})]
+    if c is not None:
+        c.evaluations += len(scs)
+    bad = {}
+    for i, (sc, r) in enumerate(zip(scs, res)):
+        if c is not None:
+            c.count('user:' + sc['kind'] + ('-aborted' if sc.get('abort') else ''))
+            if sc['kind'] == 'clock':
+                ac = [a for t in sc['tasks'] for st in t['steps'] for a in st['acts']] + sc['init']
+                if any(a[0] in ('tempo', 'beats') for a in ac): c.count('user:clock-with-retime')
+                ts = [t for _, t in (r.get('log') or [])]
+                if len(set(ts)) < len(ts): c.count('user:clock-with-tied-wakeups')
+            if sc['kind'] == 'score':
+                ts = [t for t, _ in (r.get('list') or [])]
+                if len(set(ts)) < len(ts): c.count('user:score-with-tied-bundles')
+            if r.get('log') or r.get('list') or r.get('events'):
+                c.nontriv(('user', json.dumps(sc, sort_keys=True)))
+        v = users.JUDGES[sc['kind']](sc, r)
+        if v:
+            key = (sc['kind'], v[0])
+            # an aborted predecessor is part of the input (stale state)
+            pre = [scs[i - 1]] if i > 0 and scs[i - 1].get('abort') else []
+            if key not in bad or len(json.dumps(pre + [sc])) < len(json.dumps(bad[key][0])):
+                bad[key] = (pre + [sc], v)
+    out = []
+    for (knd, clause), (seq, v) in sorted(bad.items(), key=lambda kv: len(json.dumps(kv[1][0])))[:3]:
+        pre, sc = seq[:-1], seq[-1]
+
+        def fails(cands, pre=pre, clause=clause):
+            rs = run_users(ctx, [x for cnd in cands for x in pre + [cnd]])
+            rs = rs[len(pre)::len(pre) + 1]
+            vs = [users.JUDGES[cnd['kind']](cnd, r) for cnd, r in zip(cands, rs)]
+            return [bool(x) and x[0] == clause for x in vs]
+        try:
+            sc = shrink_scenario(sc, fails)
+            if pre and fails([sc], pre=[])[0]:
+                pre = []                                          # the stale state was not needed
+            r = run_users(ctx, pre + [sc])[-1]
+            v = users.JUDGES[sc['kind']](sc, r) or v
+        except fw.ImplError:
+            r = {}
+        expected = {'clock': users.ref_clock, 'score': users.ref_score, 'ppar': users.ref_ppar}[sc['kind']](sc)
+        out.append(Failure('search', 'indirect user %s of TaskQueue departs from a stable priority queue (clause %s): %s; scenario %s'
+                           % (knd, v[0], v[1], json.dumps(pre + [sc])),
+                           signature='C09:user-%s:%s' % (knd, v[0]),
+                           replay={'scenarios': pre + [sc], 'observed': r, 'expected': expected, 'how': USERS_HOW},
+                           found_input=True, theorem=USER_THEOREM.get(v[0], 'tq_refines_spec')))
+    return out
+
+
+
 # ---- correspondence --------------------------------------------------------------------------
 def correspond(ctx):
     c = Corr()
@@ -310,6 +515,11 @@ def correspond(ctx):
     if len(bad) > 5:
         c.notes.append('%d disagreeing histories in total, the 5 shortest reported (3 of them shrunk)' % len(bad))
     indirect(ctx, c)
+    c.failures.extend(check_users(ctx, c, ctx.n(150, 1500)))
+    c.notes.append('indirect users II: clock tasks in an NRT process (SystemClock / TempoClocks, re-scheduling while pending, tempo and '
+                   'beats changes -> ClockScheduler.retime, main.reset() after aborted histories, empty()-driven run loop), OscScore '
+                   'filled from inside routines (latencies None / negative / 0 / positive; list view against raw timetags) and Ppar '
+                   'merges, all judged by the sorted-list reference queue (harness/oracles/c09_users_ref.py)')
     return c
 
 
@@ -358,10 +568,21 @@ def search(ctx, failures):
                              % (clause, ops, v[2] if v else ''), signature='C09:' + clause,
                              replay={'ops': ops, 'observed': obs, 'expected': oracle.run_reference(ops), 'how': HOW},
                              found_input=True, theorem=THEOREM_OF.get(clause, 'tq_refines_spec')))
+    if not any((f.signature or '').startswith('C09:user-') for f in failures):
+        found += check_users(ctx, None, ctx.n(300, 3000))
     return found
 
 
 def replay(ctx, rp):
+    scs = rp.get('replay', rp).get('scenarios')
+    if scs:
+        res = run_users(ctx, scs)
+        rc = 0
+        for sc, r in zip(scs, res):
+            v = users.JUDGES[sc['kind']](sc, r)
+            print(json.dumps(sc)); print('  observed:', r); print('  verdict :', v or 'agrees with the reference queue')
+            rc = rc or (1 if v else 0)
+        return rc
     ops = rp.get('replay', rp).get('ops')
     if not ops:
         print(json.dumps(rp, indent=1)); return 0
